@@ -161,7 +161,9 @@ func dkgFalseComplaint(seed string, gr *client.GroupResult, gid tss.GroupID, add
 	}
 	var sig tss.ComplaintSignature
 	var keySym tss.Point
-	withDetRand(seed, func() { sig, keySym, err = tss.SignComplaint(r1c.OneTimePubKey, r1r.OneTimePubKey, m.dkg.OneTimePrivKey) })
+	withDetRand(seed, func() {
+		sig, keySym, err = tss.SignComplaint(r1c.OneTimePubKey, r1r.OneTimePubKey, m.dkg.OneTimePrivKey)
+	})
 	if err != nil {
 		return nil, err
 	}
